@@ -130,3 +130,67 @@ def m_c04_starred_glued(f, rec):
         return False
     src = rec["case"]["src"]
     return bool(re.search(r"[^\s(\[]@\$?\(", src) or re.search(r"@\$?\([^()]*(\([^()]*\)[^()]*)*\)[^\s)\]]", src))
+
+
+def m_c17_single_item_group_action(f, rec):
+    """the grammar has a group with one alternative holding one named item and an action, and the observed value is the
+    semantic value with that group's action tuple replaced by the bare item value"""
+    import json
+
+    gram = rec["case"].get("gram", "")
+    if not _has_single_item_group(gram):
+        return False
+    if rec["clause"] != "action_value_differs_from_semantics":
+        return False
+    d = rec.get("detail") or {}
+    try:
+        obs, sem = json.loads(d["observed"][2]), json.loads(d["semantics"][2])
+    except Exception:  # noqa: BLE001
+        return False
+
+    def drop(v):
+        # replace every ["g..", x] (a one-item group action) by x
+        if isinstance(v, list):
+            v = [drop(x) for x in v]
+            if len(v) == 2 and isinstance(v[0], str) and re.fullmatch(r"[a-zA-Z]\w*", v[0]) and isinstance(v[1], (list, str)):
+                return v[1]
+        return v
+
+    return drop(sem) == obs or drop(sem) == drop(obs)
+
+
+def _has_single_item_group(gram: str) -> bool:
+    """some parenthesised group has exactly one alternative with exactly one (named) item at its top level"""
+    stack = []
+    for i, ch in enumerate(gram):
+        if ch == "(" and (i == 0 or gram[i - 1] in " =&!.") and not gram.startswith("('", i):
+            stack.append(i)
+        elif ch == ")" and stack and not (i >= 2 and gram[i - 1] == ","):
+            j = stack.pop()
+            body = gram[j + 1: i]
+            depth, alts, items, brace = 0, 1, 0, 0
+            k = 0
+            while k < len(body):
+                c = body[k]
+                if c == "{":
+                    brace += 1
+                elif c == "}":
+                    brace -= 1
+                elif brace == 0:
+                    if c == "(":
+                        depth += 1
+                    elif c == ")":
+                        depth -= 1
+                    elif depth == 0 and c == "|":
+                        alts += 1
+                    elif depth == 0 and c == "v" and re.match(r"v\d+=", body[k:]) and (k == 0 or body[k - 1] == " "):
+                        items += 1
+                k += 1
+            if alts == 1 and items == 1 and "{" in body:
+                return True
+    # a rule whose only alternative is one group item (Rule.flatten drops the rule's own action)
+    for m in re.finditer(r"^r\d+(?: \(memo\))?:\n((?:    \| .*\n?)+)", gram, re.M):
+        alts = [ln for ln in m.group(1).split("\n") if ln.strip()]
+        if len(alts) == 1 and re.match(r"\s+\| v\d+=\(", alts[0]) and len(re.findall(r"(?<![\w(])v\d+=", re.sub(r"\(.*\)", "()", alts[0]))) <= 1:
+            return True
+    return False
